@@ -48,6 +48,7 @@ deriving DecidableEq, Repr, Inhabited
 /-- the part of `types.ServiceConfig` that selection and pruning look at; `image` is an opaque payload
 that lets the correspondence see whether the right service value was carried over -/
 structure Svc where
+  name : String                    -- `ServiceConfig.Name` (the loader sets it to the map key; `dependentsForService` reads it)
   image : String
   profiles : List String
   deps : AL Dep                    -- depends_on
@@ -115,15 +116,16 @@ def withServicesDisabled (p : Proj) (names : List String) : Proj :=
 inductive Policy | deps | dependents | ignore
 deriving DecidableEq, Repr, Inhabited
 
-/-- `Project.dependentsForService` (service `Name` = map key) -/
-def dependents (svcs : AL Svc) (name : String) : AL Dep :=
-  svcs.filterMap (fun kv => (lookup name kv.2.deps).map (fun d => (kv.1, d)))
+/-- `Project.dependentsForService`: ranges over the services and, for each one that depends on `s.Name`,
+does `dependent[service.Name] = dependency` (keyed by the dependent's `Name`, not by its map key) -/
+def dependents (svcs : AL Svc) (s : Svc) : AL Dep :=
+  insertAll (svcs.filterMap (fun kv => (lookup s.name kv.2.deps).map (fun d => (kv.2.name, d)))) []
 
 /-- the `dependencies` map of one visited service -/
 def nextOf (svcs : AL Svc) (pol : Policy) (name : String) (s : Svc) : AL Dep :=
   match pol with
   | .deps => s.deps
-  | .dependents => dependents svcs name
+  | .dependents => dependents svcs s
   | .ignore => []
 
 inductive Walk where
